@@ -25,6 +25,7 @@ import SqModel.Proofs.Reader
 import SqModel.Generated.Sites
 import SqModel.Props.C02
 import SqModel.Proofs.Safe
+import SqModel.Proofs.TableInv
 
 namespace Sq.C01
 
@@ -153,5 +154,21 @@ example : Safe.TableOK ⟨[]⟩ ∧ Safe.CountOK ⟨[], 0, 0⟩ := by
   · intro kv h; simp at h
   · intro kc h; simp at h
   · decide
+
+/-- **no reachable state of the reader loop lets the next line trap.**  From a fresh start (or any table of admissible rows
+    left by an earlier `read_lines` call, with fresh counters), after any run of fewer than 2^31 - 1 lines of arbitrary
+    characters, each processed at its own time, under any options: the translated loop body meets every trap-freedom obligation on any next
+    line.  The two invariants of `no_trap_per_line` are discharged here: they hold initially and every step keeps them
+    (`Safe.stepLine_ok`, proved on the model and carried over by the simulation `read_lines_step_sim`). -/
+theorem no_trap_in_any_reachable_state (te : TEnv) (a : T.Args) (ts : Int) (r : Safe.Run)
+    (hlen : r.length + 1 < 2147483648)
+    (s0 : RState) (h0 : Safe.MTableOK s0.table) (hc0 : Safe.MCountOK 0 s0) (now : Int) (next : List Char) :
+    T.read_lines_step.safe now te next a
+      (Safe.codeRun te a (Bridge.tableToT s0.table, Bridge.countersToT s0 ts) r).1
+      (Safe.codeRun te a (Bridge.tableToT s0.table, Bridge.countersToT s0 ts) r).2 :=
+  Safe.no_trap_run te a ts r hlen s0 h0 hc0 now next
+
+/-- its premises are met by the state the program starts in -/
+example : Safe.MTableOK ({} : RState).table ∧ Safe.MCountOK 0 ({} : RState) := Safe.fresh_ok
 
 end Sq.C01
